@@ -242,3 +242,61 @@ func VC09_Pipelined() {
 	rt.Assert(n0 == 1 && n1 == 1 && len(w.bs[0].sent) == 2, "pipelined on one connection: every request reaches the backend exactly once")
 	rt.Reach("end")
 }
+
+// VC09_TCPBackends: the message loop dispatches requests to real TCP backends (fakenet connections) while another
+// thread — name resolution reporting a vanished address — removes one of them from the rotation, which closes it.
+// Nothing crashes, every dispatch reaches one backend or reports an error, and the two threads do not touch a
+// backend's connection without synchronisation.
+func VC09_TCPBackends() {
+	fakenet.Reset()
+	rt.Sched(rt.Param("BUDGET"), false)
+	rt.RaceMonitor(true)
+	established := func(c fakenet.Conn) {}
+	fakenet.DialHook = func(network, address string) (fakenet.Conn, error) {
+		return fakenet.NewTCPConn(wListenAddr+":40000", address), nil
+	}
+	rr := NewRoundRobinBackend()
+	var bs []*TCPBackend
+	for i := 0; i < 2; i++ {
+		b, err := NewTCPBackend(wListenAddr+":5080", "10.0.1."+itoa(i+1)+":5060", established)
+		rt.Assert(err == nil, "TCP backend created")
+		if err != nil {
+			return
+		}
+		bs = append(bs, b)
+		rr.AddBackend(b)
+	}
+	if rt.Bool("connected-before") {
+		// both backends have been used before: their connections exist
+		for i := 0; i < 2; i++ {
+			rt.Assert(rr.Send(NewMessage()) == nil, "warm-up dispatch succeeds")
+		}
+	}
+	warm := 0
+	for _, c := range fakenet.Conns {
+		warm += len(c.Written)
+	}
+	done := make(chan bool, 2)
+	go func() {
+		rr.RemoveBackend(bs[rt.Choice("removed", 2)].GetAddress())
+		done <- true
+	}()
+	errs := 0
+	go func() {
+		for i := 0; i < 2; i++ {
+			if rr.Send(NewMessage()) != nil {
+				errs++
+			}
+		}
+		done <- true
+	}()
+	<-done
+	<-done
+	written := 0
+	for _, c := range fakenet.Conns {
+		written += len(c.Written)
+	}
+	rt.Assert(written-warm+errs == 2, "every dispatch is written to one backend connection or reports an error")
+	rt.Assert(len(rr.backends) == 1 && len(rr.backendMap) == 1, "list and map in step after the removal")
+	rt.Reach("end")
+}
